@@ -2431,6 +2431,83 @@ def c05tsha_module(repo=None, workdir='/tmp'):
     return m.text('Usual.Gen.C05TSha', GEN_NOTE % ('usual/crypto/sha256.c, usual/bits.h, usual/endian.h', 'C05'))
 
 
+def c05tsha512_module(repo=None, workdir='/tmp'):
+    """usual/crypto/sha512.c: sha512_core (80 rounds, same shape as sha256_core) with K[80],
+    ror64 / rol64 of usual/bits.h and bswap64 of usual/endian.h"""
+    repo = repo or _default_repo()
+    stub = _stub(workdir, 'c05tsha512_stub.c', '#include "usual/crypto/sha512.c"\n')
+    m = Module(stub, repo, flt='sha512_core')
+    m.struct('sha512_ctx', union_member={'buf': 'words'})
+    m.fn('rol64', {'v': 'val', 's': 'val'}, assume={'s': (1, 63)}, flt='rol64')
+    m.fn('ror64', {'v': 'val', 's': 'val'}, assume={'s': (1, 63)}, flt='ror64')
+    m.fn('usual_bswap64', {'x': 'val'}, flt='usual_bswap64')
+    m.fn('sha512_core', {'ctx': 'struct'}, prune=True)
+    return m.text('Usual.Gen.C05TSha512', GEN_NOTE % ('usual/crypto/sha512.c, usual/bits.h, usual/endian.h', 'C05'))
+
+
+C05TSHA_PARTA_HEAD = "import Usual.Gen.C05TSha\n/-!\n# C05 translation tie, SHA-256 (part A): the 64 unrolled rounds of `sha256_core`, folded\n\n`Usual.Gen.C05TSha.sha256_core` (regenerated from usual/crypto/sha256.c on every run) is a chain\nof 977 `let`s.  This file states what one `SHA256_ROUND` block does (`Rlo` for `t < 16`, `Rhi` on the\n16-word circular buffer for `t ≥ 16`, common tail `stepG`) and proves, block by block\n(`extract_lets` … `rfl` … `clear_value`; the script is produced mechanically from the names in the\ngenerated file), that the whole function is `finishG ctx (roundG 63 (… (roundG 0 (startG ctx))))`.\nNo axioms beyond the kernel's.  Part B (`Bridge/C05TSha.lean`) identifies that with the model.\n-/\nset_option maxRecDepth 100000\nnamespace UsualProofs.Bridge.C05TSha\nopen Usual.Gen.C05TSha\n\nabbrev W := BitVec 32\n\n/-- the working variables `a … h` and the 16-word circular message buffer `W(n)` -/\nstructure S where\n  a : W\n  b : W\n  c : W\n  d : W\n  e : W\n  f : W\n  g : W\n  h : W\n  w : Array W\n\n/-- the part of `SHA256_ROUND` after `W(t)` has been set: `tmp1`, `tmp2`, rotation of `a … h` -/\ndef stepG (k wt : W) (s : S) (w' : Array W) : S :=\n  let tmp1 := ((((s.h + (((ror32 s.e (6#32)) ^^^ (ror32 s.e (11#32))) ^^^ (ror32 s.e (25#32)))) + ((s.e &&& s.f) ^^^ ((~~~s.e) &&& s.g))) + k) + wt)\n  let tmp2 := ((((ror32 s.a (2#32)) ^^^ (ror32 s.a (13#32))) ^^^ (ror32 s.a (22#32))) + (((s.a &&& s.b) ^^^ (s.a &&& s.c)) ^^^ (s.b &&& s.c)))\n  { a := tmp1 + tmp2, b := s.a, c := s.b, d := s.c, e := s.d + tmp1, f := s.e, g := s.f, h := s.g, w := w' }\n\n/-- round `t < 16`: `W(t) = be32toh(W(t))` first -/\ndef Rlo (j : Nat) (s : S) : S :=\n  let w' := s.w.setIfInBounds j (usual_bswap32 (s.w.getD j 0#32))\n  stepG (K.getD j 0#32) (w'.getD j 0#32) s w'\n\n/-- round `t ≥ 16` on the circular buffer: `j = t & 15`, `k` = index into `K` -/\ndef Rhi (j k : Nat) (s : S) : S :=\n  let x2 := s.w.getD ((j + 14) % 16) 0#32\n  let x15 := s.w.getD ((j + 1) % 16) 0#32\n  let w' := s.w.setIfInBounds j ((((((ror32 x2 (17#32)) ^^^ (ror32 x2 (19#32))) ^^^ (x2 >>> ((10#32)).toNat)) + (s.w.getD ((j + 9) % 16) 0#32)) + (((ror32 x15 (7#32)) ^^^ (ror32 x15 (18#32))) ^^^ (x15 >>> ((3#32)).toNat))) + (s.w.getD j 0#32))\n  stepG (K.getD k 0#32) (w'.getD j 0#32) s w'\n\ndef roundG (t : Nat) (s : S) : S := if t < 16 then Rlo t s else Rhi (t % 16) t s\n\ndef finishG (ctx : sha256_ctx) (s : S) : sha256_ctx :=\n  let st0 := ctx.state\n  let st1 := st0.setIfInBounds 0 ((st0.getD 0 0#32) + s.a)\n  let st2 := st1.setIfInBounds 1 ((st1.getD 1 0#32) + s.b)\n  let st3 := st2.setIfInBounds 2 ((st2.getD 2 0#32) + s.c)\n  let st4 := st3.setIfInBounds 3 ((st3.getD 3 0#32) + s.d)\n  let st5 := st4.setIfInBounds 4 ((st4.getD 4 0#32) + s.e)\n  let st6 := st5.setIfInBounds 5 ((st5.getD 5 0#32) + s.f)\n  let st7 := st6.setIfInBounds 6 ((st6.getD 6 0#32) + s.g)\n  let st8 := st7.setIfInBounds 7 ((st7.getD 7 0#32) + s.h)\n  { buf_words := s.w, state := st8, nbytes := ctx.nbytes }\n\ndef startG (ctx : sha256_ctx) : S :=\n  { a := ctx.state.getD 0 0#32, b := ctx.state.getD 1 0#32, c := ctx.state.getD 2 0#32, d := ctx.state.getD 3 0#32,\n    e := ctx.state.getD 4 0#32, f := ctx.state.getD 5 0#32, g := ctx.state.getD 6 0#32, h := ctx.state.getD 7 0#32,\n    w := ctx.buf_words }\n\n/-- the 64 unrolled rounds of the generated `sha256_core`, folded: what clang reads is\n`finishG ctx (roundG 63 (… (roundG 0 (startG ctx))))` -/\ntheorem core_eq_rounds (ctx : sha256_ctx) :\n    sha256_core ctx = finishG ctx ((List.range 64).foldl (fun s t => roundG t s) (startG ctx)) := by\n  unfold sha256_core\n"
+
+
+def _sha512_text(t):
+    """the SHA-256 bridge text with the constants of SHA-512 (FIPS 180-4 6.4: 64-bit words, 80 rounds)"""
+    for a, b in (('ror32 s.e (6#32)) ^^^ (ror32 s.e (11#32))) ^^^ (ror32 s.e (25#32))',
+                  'ror64 s.e (14#32)) ^^^ (ror64 s.e (18#32))) ^^^ (ror64 s.e (41#32))'),
+                 ('ror32 s.a (2#32)) ^^^ (ror32 s.a (13#32))) ^^^ (ror32 s.a (22#32))',
+                  'ror64 s.a (28#32)) ^^^ (ror64 s.a (34#32))) ^^^ (ror64 s.a (39#32))'),
+                 ('(ror32 x2 (17#32)) ^^^ (ror32 x2 (19#32))) ^^^ (x2 >>> ((10#32)).toNat)',
+                  '(ror64 x2 (19#32)) ^^^ (ror64 x2 (61#32))) ^^^ (x2 >>> ((6#32)).toNat)'),
+                 ('(ror32 x15 (7#32)) ^^^ (ror32 x15 (18#32))) ^^^ (x15 >>> ((3#32)).toNat)',
+                  '(ror64 x15 (1#32)) ^^^ (ror64 x15 (8#32))) ^^^ (x15 >>> ((7#32)).toNat)'),
+                 (' 0#32', ' 0#64'), ('BitVec 32', 'BitVec 64'), ('usual_bswap32', 'usual_bswap64'),
+                 ('C05TSha', 'C05TSha512'), ('sha256', 'sha512'), ('SHA-256', 'SHA-512'), ('SHA256', 'SHA512'),
+                 ('List.range 64', 'List.range 80'), ('roundG 63', 'roundG 79'), ('977 `let`s', '1217 `let`s'),
+                 ('the 64 unrolled rounds', 'the 80 unrolled rounds')):
+        t = t.replace(a, b)
+    return t
+
+
+def c05tsha_partA(gen_text, variant='256'):
+    """text of lean/UsualProofs/Bridge/C05TShaA.lean (variant '512': C05TSha512A.lean): the
+    block-by-block folding script (`extract_lets` / `rfl` / `clear_value`) for the `let` names of the
+    generated sha256_core / sha512_core.  Re-run after a change of the translator that renames the
+    generated variables:
+      python3 -c "import c2lean; print(c2lean.c05tsha_partA(open('lean/Usual/Gen/C05TSha.lean').read()))" """
+    nr = 64 if variant == '256' else 80
+    fname = 'sha%s_core' % variant
+    body = gen_text[gen_text.index('def ' + fname):]
+    lets = re.findall(r'^  let (\w+) := ', body, re.M)
+    if len(lets) != 9 + nr * 15 + 8:
+        raise Refused('%s: unexpected number of statements (%d)' % (fname, len(lets)))
+    head, tail = lets[:9], lets[9 + nr * 15:]
+    rounds = [lets[9 + 15 * i:9 + 15 * (i + 1)] for i in range(nr)]
+
+    def pick(names, base):
+        return [n for n in names if re.match(base + r'_\d+$', n)][-1]
+
+    def smk(c):
+        return '(S.mk %s)' % ' '.join(c[k] for k in 'abcdefghw')
+    ex = '  extract_lets -merge +onlyGivenNames '
+    cur = dict(zip('abcdefgh', head[:8]))
+    cur['w'] = 'ctx.buf_words'
+    out = (C05TSHA_PARTA_HEAD if variant == '256' else _sha512_text(C05TSHA_PARTA_HEAD)) + ex + ' '.join(head) + '\n'
+    out += '  have h_s : %s = startG ctx := rfl\n' % smk(cur)
+    hyps = []
+    for i, names in enumerate(rounds):
+        new = {k: pick(names, k) for k in 'abcdefgh'}
+        new['w'] = pick(names, 'ctx_buf_words')
+        out += ex + ' '.join(names) + '\n'
+        out += '  have h%d : %s = roundG %d %s := rfl\n' % (i, smk(new), i, smk(cur))
+        out += '  clear_value ' + ' '.join(reversed(names)) + '\n'
+        cur = new
+        hyps.append('h%d' % i)
+    out += ex + ' '.join(tail) + '\n'
+    out += ('  have hfin : ({ buf_words := %s, state := %s, nbytes := ctx.nbytes } : sha%s_ctx) = finishG ctx %s := rfl\n'
+            % (cur['w'], tail[-1], variant, smk(cur)))
+    out += '  rw [hfin]\n  clear hfin\n  simp only [List.range, List.range.loop, List.foldl]\n'
+    out += '  rw [' + ', '.join(reversed(hyps)) + ', h_s]\n\nend UsualProofs.Bridge.C05TSha%s\n' % ('' if variant == '256' else '512')
+    return out
+
+
 TTIE = {
     'C12': (c12t_module, 'usual/mbuf.h + usual/mbuf.c'),
     'C09': (c09t_module, 'usual/bits.h safe_mul_*'),
@@ -2444,31 +2521,36 @@ TTIE = {
 
 
 def ttie(ck, vf, pid):
-    """T-tie step of checks/<pid>.py: regenerate lean/Usual/Gen/<pid>T.lean from vf.REPO and
+    """T-tie step of checks/<pid>.py: regenerate lean/Usual/Gen/<pid>T*.lean from vf.REPO and
     return the bridge modules to be added to the proof obligations.  Refusal of the translator or
     a generated file that Lean rejects = tie broken (ck.broken, ck.proof_ok = False); the
     committed Gen file is put back so that everything still builds and the check goes on
     searching.  Runs against a scratch copy restore the file when the process ends."""
+    out = []
+    for suffix, fn, what, bridges in TTIE_MODS.get(pid, [('T',) + TTIE[pid] + (['UsualProofs.Bridge.%sT' % pid],)]):
+        out += _ttie1(ck, vf, pid + suffix, fn, what, bridges)
+    return out
+
+
+def _ttie1(ck, vf, name, fn, what, bridge):
     import atexit
     import subprocess as sp
-    fn, what = TTIE[pid]
-    rel = 'lean/Usual/Gen/%sT.lean' % pid
+    rel = 'lean/Usual/Gen/%s.lean' % name
     path = os.path.join(vf.VERIF, rel)
     before = open(path, encoding='utf-8').read() if os.path.exists(path) else None
     pinned = vf.git_committed(rel)
     if pinned is None:
         pinned = before
-    bridge = ['UsualProofs.Bridge.%sT' % pid]
     if os.path.realpath(vf.REPO) != '/repo' and before is not None:
         atexit.register(lambda: vf.write_if_changed(path, before))
 
     def broken(msg):
         ck.broken.append(msg)
         ck.proof_ok = False
-        ck.cov['t_tie_' + pid + 'T'] = 'BROKEN: ' + msg[:200]
+        ck.cov['t_tie_' + name] = 'BROKEN: ' + msg[:200]
         if pinned is not None:
             vf.write_if_changed(path, pinned)
-            ck.cov['gen_restored_' + pid + 'T'] = 'pinned version, so that the tree still builds'
+            ck.cov['gen_restored_' + name] = 'pinned version, so that the tree still builds'
         # lemmas about a stale Gen file say nothing about the current source: not obligations of this run
         return []
     try:
@@ -2480,9 +2562,16 @@ def ttie(ck, vf, pid):
     if p.returncode != 0:
         return broken('T-tie: the Lean file generated from %s does not compile: %s'
                       % (what, ' | '.join(l for l in p.stdout.split('\n') if 'error' in l)[:300]))
-    ck.cov['t_tie_' + pid + 'T'] = 'regenerated from %s%s' % (
+    ck.cov['t_tie_' + name] = 'regenerated from %s%s' % (
         what, '' if pinned is None or pinned == txt else ' (differs from the pinned Gen file)')
-    return bridge
+    return list(bridge)
+
+
+TTIE_MODS = {
+    'C05': [('T', c05t_module, 'usual/crypto/chacha.c chacha_mix + usual/bits.h rol32', ['UsualProofs.Bridge.C05T']),
+            ('TSha', c05tsha_module, 'usual/crypto/sha256.c sha256_core',
+             ['UsualProofs.Bridge.C05TShaA', 'UsualProofs.Bridge.C05TSha'])],
+}
 
 
 if __name__ == '__main__':
